@@ -301,6 +301,9 @@ func (s *Store) RegisterDB(db *DB) error {
 		}
 	}
 	s.mu.Unlock()
+	if verifEnabled {
+		verifTrace("store.register.checked", db.Path())
+	}
 
 	// Apply store-wide settings before opening the database.
 	db.SetLogger(s.Logger.With(LogKeyDB, filepath.Base(db.Path())))
@@ -317,6 +320,9 @@ func (s *Store) RegisterDB(db *DB) error {
 		return fmt.Errorf("open db: %w", err)
 	}
 
+	if verifEnabled {
+		verifTrace("store.register.opened", db.Path())
+	}
 	// Second check: verify database wasn't added by another goroutine while we were opening.
 	// If it was, close our instance and return without error.
 	s.mu.Lock()
@@ -387,6 +393,9 @@ func (s *Store) EnableDB(ctx context.Context, path string) error {
 	if db.IsOpen() {
 		return fmt.Errorf("database already enabled: %s", path)
 	}
+	if verifEnabled {
+		verifTrace("store.enable.checked", path)
+	}
 
 	// Check for cancellation before starting open
 	if err := ctx.Err(); err != nil {
@@ -409,6 +418,9 @@ func (s *Store) DisableDB(ctx context.Context, path string) error {
 
 	if !db.IsOpen() {
 		return fmt.Errorf("database already disabled: %s", path)
+	}
+	if verifEnabled {
+		verifTrace("store.disable.checked", path)
 	}
 
 	if err := db.Close(ctx); err != nil {
